@@ -47,7 +47,7 @@ for pid in sorted(P):
     })
 m = {
  "version": 1,
- "setup_cmd": "cd /verif/replay && cp -n /repo/Cargo.lock Cargo.lock 2>/dev/null; CARGO_NET_OFFLINE=true cargo build --release --offline -q || true",
+ "setup_cmd": "cd /verif/replay && cp -n /repo/Cargo.lock Cargo.lock 2>/dev/null; CARGO_NET_OFFLINE=true cargo build --release --offline -q || true; cd /verif/audit && cp -n /repo/Cargo.lock Cargo.lock 2>/dev/null; CARGO_NET_OFFLINE=true cargo build --release --offline -q || true",
  "hooks": {"guard": "none: no source hook is needed (contracts, shim and lemmas live in /verif and are woven into a generated copy)",
            "enable": "n/a (checks read /repo/src and /repo/Cargo.toml as they are)",
            "baseline_off_cmd": "cd /repo && cargo test --workspace --no-fail-fast --offline",
